@@ -9,8 +9,9 @@ def IsQueryErr (e : Err) : Prop := (∃ m, e = .parse m) ∨ (∃ m, e = .interp
 /-- only query errors come out of `r` -/
 def QErr {α} (r : Except Err α) : Prop := ∀ e, r = .error e → IsQueryErr e
 
-/-- the builtin bodies raise only query errors -/
-def ApplyQ (apply : Apply) : Prop := ∀ n a, QErr (apply n a)
+/-- the builtin bodies raise only query errors — or `TypeError`, which `QFunction.interpret` turns into a
+    `QueryInterpretException` whatever raised it (`catchTypeError`) -/
+def ApplyQ (apply : Apply) : Prop := ∀ n a, QErr (catchTypeError (apply n a))
 
 theorem qerr_ok {α} (a : α) : QErr (.ok a : Except Err α) := by intro e h; cases h
 theorem qerr_interp {α} (m : String) : QErr (.error (.interp m) : Except Err α) := by
@@ -126,7 +127,7 @@ theorem callBuiltin_qerr {apply : Apply} (hA : ApplyQ apply) (e : Entry) (args :
       rw [hm]; exact qerr_interp _
     | true =>
       rw [callBuiltin_apply h ha]
-      exact catchTypeError_qerr (hA _ _)
+      exact hA _ _
   · rw [callBuiltin_func h]
     intro e' he'; cases he'; exact Or.inr (Or.inr ⟨m, rfl⟩)
 
